@@ -15,7 +15,7 @@ VERIF = os.path.dirname(os.path.dirname(os.path.abspath(__file__)))
 REPO = os.path.abspath(os.environ.get("VERIF_REPO", "/repo"))
 # a tree other than /repo (a scratch worktree holding a seeded change) gets its own work area, so that
 # several trees can be checked at the same time without touching /repo
-WORK = os.path.join(VERIF, ".work") if REPO == "/repo" else os.path.join(VERIF, ".work", "alt-" + hashlib.sha256(REPO.encode()).hexdigest()[:10])
+WORK = os.path.join(VERIF, ".work", "covrun") if os.environ.get("VF_COV") else os.path.join(VERIF, ".work") if REPO == "/repo" else os.path.join(VERIF, ".work", "alt-" + hashlib.sha256(REPO.encode()).hexdigest()[:10])
 RUST_SRC = os.path.join(VERIF, "rust")
 os.makedirs(WORK, exist_ok=True)
 
@@ -135,6 +135,10 @@ def cargo_build(crate_dir, target_dir, rustflags="", extra=(), toolchain=None, e
     lockf = os.path.join(crate_dir, "Cargo.lock")
     if not os.path.exists(lockf):
         shutil.copy(os.path.join(REPO, "Cargo.lock"), lockf)
+    if os.environ.get("VF_COV"):
+        # coverage run (tools/coverage_runtime.sh): everything is built by the nightly toolchain with coverage instrumentation
+        toolchain = toolchain or "nightly"
+        rustflags = (rustflags + " -Cinstrument-coverage").strip()
     cmd = ["cargo"] + (["+" + toolchain] if toolchain else []) + ["build", "--offline"] + list(extra)
     if keep_going:
         cmd.append("--keep-going")
@@ -156,6 +160,8 @@ _tools = {}
 
 def tool_cgdrv():
     """the P-gen driver linked against /repo/codegen as it is now"""
+    if os.environ.get("VF_CGDRV_BIN"):
+        return os.environ["VF_CGDRV_BIN"]  # an instrumented build (tools/coverage_codegen.sh)
     if "cgdrv" not in _tools:
         tgt = os.path.join(WORK, "tgt", "cgdrv")
         p = cargo_build(os.path.join(rust_dir(), "cgdrv"), tgt)
